@@ -6,6 +6,7 @@
 import IpfixModel.Model.Agg
 import IpfixModel.Spec.C07
 import IpfixModel.Lemmas.Retry
+import IpfixModel.Lemmas.AggLin
 namespace Ipfix.C07
 open Agg
 
@@ -703,5 +704,46 @@ example :
     ((s0.find 1).map fun a => (a.ready, a.retries)) = some (true, 0) ∧
     ((runRounds s0 [retryRound]).2.map fun o => o.callbacks.map fun p => (p.1, p.2.ready, p.2.corrFilled)) =
       [[(1, true, true)]] := by decide
+
+
+/-! ## The bound holds whatever arrives in between
+
+  A record that does not complete the correlation (the same node reporting the flow again) neither resets
+  the retry counter nor postpones the active deadline: the next scan treats the flow exactly as it would
+  have without that record. This is the model-side reading of the rule `Spec.C07.Tracker.onScan` judges
+  the implementation by (a waiting flow found due by MaxRetries + 1 complete scans is gone). -/
+
+/-- after a record that leaves the flow waiting, the flow is held with the SAME retry counter, is still
+    not ready, and its queue item keeps its active deadline -/
+theorem rereport_keeps_counter_and_active_deadline (s : State) (h : Sched s) (r : InRec) (a : AggRec) (it : Item)
+    (hheld : s.find r.key = some a)
+    (hit : it ∈ s.pq.toList) (hk : it.key = r.key) :
+    (ingest s r).find r.key = some (update r a) ∧ (update r a).retries = a.retries ∧
+    (∃ it' ∈ (ingest s r).pq.toList, it'.key = r.key ∧ it'.active = it.active) ∧ (ingest s r).now = s.now := by
+  refine ⟨?_, update_retries r a, ⟨_, ingest_existing_deadlines s r h it hit hk, hk, rfl⟩, ingest_now s r⟩
+  rw [AggLin.ingest_find_same, hheld]; rfl
+
+/-- ... so a scan that follows such a record (and is not aborted by a failing callback) never exports the
+    flow, and drops it exactly when its counter - the one it had BEFORE the record - had reached MaxRetries -/
+theorem rereport_does_not_postpone_the_drop (s : State) (h : Sched s) (r : InRec) (a : AggRec) (it : Item)
+    (hheld : s.find r.key = some a) (hnr : (update r a).ready = false)
+    (hit : it ∈ s.pq.toList) (hk : it.key = r.key) (hdue : it.active ≤ s.now)
+    (fail : Nat → Bool) (ra : Bool) (hok : (scan (ingest s r) fail ra).2.failed = false) :
+    (∀ p ∈ (scan (ingest s r) fail ra).2.callbacks, p.1 ≠ r.key) ∧
+    ((scan (ingest s r) fail ra).1.find r.key = none ↔ Generated.cMaxRetries ≤ a.retries) := by
+  obtain ⟨hf, hret, ⟨it', hit', hk', hact⟩, hnow⟩ := rereport_keeps_counter_and_active_deadline s h r a it hheld hit hk
+  have hs' := sched_ingest s r h
+  have hd : it'.active ≤ (ingest s r).now ∨ it'.inactive ≤ (ingest s r).now := Or.inl (by rw [hact, hnow]; exact hdue)
+  obtain ⟨h1, h2, -⟩ := unready_due_flow_retried_or_dropped (ingest s r) fail ra hs' r.key (update r a) hf hnr it' hit' hk' hd hok
+  exact ⟨h1, by rw [hret] at h2; exact h2⟩
+/-- non-vacuity: the source node reports an inter-node flow and, 100 ms later (the active deadline), reports it again:
+    the flow still waits, its item is due, the scan is not aborted -/
+example :
+    let s0 : State := { ingest { activeT := 100, inactiveT := 250 } rS with now := 100 }
+    (∃ a, s0.find rS.key = some a ∧ (update rS a).ready = false ∧ a.retries = 0) ∧
+    (∃ it ∈ s0.pq.toList, it.key = rS.key ∧ it.active ≤ s0.now) ∧
+    (scan (ingest s0 rS) (fun _ => false) false).2.failed = false ∧
+    ((scan (ingest s0 rS) (fun _ => false) false).1.find rS.key).map (·.retries) = some 1 := by
+  decide
 
 end Ipfix.C07
